@@ -25,6 +25,11 @@ type Digest struct {
 	Guarded map[string]string
 	Skipped map[string]int // type -> occurrences
 	GTypes  map[string]int // struct types treated as mutex-guarded
+	// OnceInit: leaves below a struct that itself holds a sync.Once. They are compared like any
+	// other leaf, except that the checker accepts their FIRST initialisation (zero value -> value):
+	// that is the lazy-initialisation idiom the Once exists for. Any later change is a write.
+	OnceInit map[string]bool
+	inOnce   int
 	// Stop: pointers to objects that are tracked as roots of their own (package-level
 	// variables, caller-supplied objects); the walk records the alias and does not
 	// descend, so that one write is reported once, at its owner.
@@ -38,7 +43,7 @@ type seenKey struct {
 }
 
 func NewDigest() *Digest {
-	return &Digest{Leaves: map[string]string{}, Guarded: map[string]string{}, Skipped: map[string]int{}, GTypes: map[string]int{}, seen: map[seenKey]string{}}
+	return &Digest{Leaves: map[string]string{}, Guarded: map[string]string{}, Skipped: map[string]int{}, GTypes: map[string]int{}, OnceInit: map[string]bool{}, seen: map[seenKey]string{}}
 }
 
 const modulePrefix = "github.com/zitadel/oidc/v3"
@@ -104,7 +109,29 @@ func (d *Digest) set(p, val string, guarded bool) {
 		d.Guarded[p] = val
 	} else {
 		d.Leaves[p] = val
+		if d.inOnce > 0 {
+			d.OnceInit[p] = true
+		}
 	}
+}
+
+func holdsOnce(t reflect.Type) bool {
+	for i := 0; i < t.NumField(); i++ {
+		ft := t.Field(i).Type
+		if ft.PkgPath() == "sync" && ft.Name() == "Once" {
+			return true
+		}
+	}
+	return false
+}
+
+// ZeroLeaf reports whether a leaf text is the zero value of its kind.
+func ZeroLeaf(s string) bool {
+	switch s {
+	case "nil", "slice:nil", "map:nil", "iface:nil", "func:nil", `""`, "0", "false":
+		return true
+	}
+	return false
 }
 
 func funcName(pc uintptr) string {
@@ -205,6 +232,10 @@ func (d *Digest) walk(p string, v reflect.Value, g bool, depth int) {
 			return
 		}
 		av := addressable(v)
+		if holdsOnce(t) {
+			d.inOnce++
+			defer func() { d.inOnce-- }()
+		}
 		if !g {
 			for i := 0; i < t.NumField(); i++ {
 				if isMutex(t.Field(i).Type) {
